@@ -118,3 +118,34 @@ package plonk
 //@   loop 5 invariant 0 <= j && j <= p.commonData.Config.NumChallenges && j <= pow2(17) && len(reducedValues) == p.commonData.Config.NumChallenges &&
 //@        forall(k, 0, j, canonQE(reducedValues[k]) && reducedValues[k] == qe_horner_s(vanishingTerms, proofChallenges.PlonkAlphas[k].Limb, i)) &&
 //@        forall(k, j, p.commonData.Config.NumChallenges, canonQE(reducedValues[k]) && reducedValues[k] == qe_horner_s(vanishingTerms, proofChallenges.PlonkAlphas[k].Limb, i + 1))
+
+// The PLONK check: for every challenge round i,
+//   sum_k alpha_i^k * term_k  ==  (zeta^n - 1) * sum_m zeta^(n m) * quotient_chunk_i[m]
+// with the terms of eval_vanishing_poly (exported as ghost results of that call).
+//@ func (p *PlonkChip) Verify(proofChallenges variables.ProofChallenges, openings variables.OpeningSet, publicInputsHash poseidon.GoldilocksHashOut)
+//@   props C16 C05 C20 C17
+//@   circuit
+//@   flag acceptance-asserts
+//@   requires plonk_ok(p) && pp_relation(p.commonData) && canonQE(proofChallenges.PlonkZeta)
+//@   requires canonSeq(proofChallenges.PlonkBetas) && canonSeq(proofChallenges.PlonkGammas) && canonSeq(proofChallenges.PlonkAlphas)
+//@   requires canonQEs(openings.Constants) && canonQEs(openings.Wires) && canonQEs(openings.PlonkSigmas) && canonQEs(openings.PlonkZs) && canonQEs(openings.PlonkZsNext) && canonQEs(openings.PartialProducts) && canonQEs(openings.QuotientPolys)
+//@   complete_requires len(proofChallenges.PlonkBetas) == p.commonData.Config.NumChallenges && len(proofChallenges.PlonkGammas) == p.commonData.Config.NumChallenges && len(proofChallenges.PlonkAlphas) == p.commonData.Config.NumChallenges
+//@   complete_requires len(openings.Wires) >= p.commonData.Config.NumRoutedWires && len(openings.PlonkSigmas) >= p.commonData.Config.NumRoutedWires
+//@   complete_requires len(openings.PlonkZs) >= p.commonData.Config.NumChallenges && len(openings.PlonkZsNext) >= p.commonData.Config.NumChallenges && len(openings.PartialProducts) >= p.commonData.Config.NumChallenges * p.commonData.NumPartialProducts
+//@   complete_requires len(openings.QuotientPolys) >= p.commonData.Config.NumChallenges * p.commonData.QuotientDegreeFactor
+//@   honest !(l0_den(proofChallenges.PlonkZeta, pow2(p.commonData.DegreeBits))[0] == 0 && l0_den(proofChallenges.PlonkZeta, pow2(p.commonData.DegreeBits))[1] == 0)
+//@   ghost zetaPowN gl.QuadraticExtensionVariable
+//@   ghost vanishingTerms []gl.QuadraticExtensionVariable = callghost("plonk.PlonkChip.evalVanishingPoly", 0, "vanishingTerms")
+//@   ghost l0Zeta gl.QuadraticExtensionVariable = callghost("plonk.PlonkChip.evalVanishingPoly", 0, "l0Zeta")
+//@   ghost constraintTerms []gl.QuadraticExtensionVariable = callghost("plonk.PlonkChip.evalVanishingPoly", 0, "constraintTerms")
+//@   ensures[zeta-pow-n] zetaPowN == qe_sq_iter(proofChallenges.PlonkZeta, p.commonData.DegreeBits)
+//@   ensures[l0] qe_mul(l0_den(proofChallenges.PlonkZeta, pow2(p.commonData.DegreeBits)), l0Zeta) == qe_sub(zetaPowN, tuple(1, 0))
+//@   ensures[terms] len(vanishingTerms) == p.commonData.Config.NumChallenges + p.commonData.Config.NumChallenges * (p.commonData.NumPartialProducts + 1) + p.commonData.NumGateConstraints
+//@   ensures[z1] forall(i, 0, p.commonData.Config.NumChallenges, vanishingTerms[i] == qe_mulo(l0Zeta, qe_subo(openings.PlonkZs[i], tuple(1, 0))))
+//@   ensures[gates] forall(k, 0, p.commonData.NumGateConstraints, vanishingTerms[p.commonData.Config.NumChallenges + p.commonData.Config.NumChallenges * (p.commonData.NumPartialProducts + 1) + k] == constraintTerms[k])
+//@   sound_ensures[identity] forall(i, 0, p.commonData.Config.NumChallenges,
+//@        qe_horner_s(vanishingTerms, proofChallenges.PlonkAlphas[i].Limb, 0) ==
+//@        qe_mulo(qe_subo(zetaPowN, tuple(1, 0)), qe_horner(openings.QuotientPolys[pp_start(p.commonData.QuotientDegreeFactor, i) : pp_start(p.commonData.QuotientDegreeFactor, i) + p.commonData.QuotientDegreeFactor], zetaPowN, 0)))
+//@   loop 0 use pp_defs(p.commonData.QuotientDegreeFactor, 0, i)
+//@   loop 0 invariant 0 <= i && i <= len(vanishingPolysZeta) && forall(k, 0, i,
+//@        implies(sound, vanishingPolysZeta[k] == qe_mulo(qe_subo(zetaPowN, tuple(1, 0)), qe_horner(openings.QuotientPolys[pp_start(p.commonData.QuotientDegreeFactor, k) : pp_start(p.commonData.QuotientDegreeFactor, k) + p.commonData.QuotientDegreeFactor], zetaPowN, 0))))
